@@ -23,7 +23,7 @@ from spacepackets.cfdp.pdu import (AckPdu, DirectiveType, EofPdu, FileDataPdu, F
 from spacepackets.cfdp.pdu.file_data import FileDataParams
 from spacepackets.cfdp.pdu.finished import DeliveryCode, FileStatus, FinishedParams
 from spacepackets.cfdp.pdu.prompt import ResponseRequired
-from spacepackets.cfdp.tlv import (MessageToUserTlv, OriginatingTransactionId, ProxyMessageType,
+from spacepackets.cfdp.tlv import (FaultHandlerOverrideTlv, MessageToUserTlv, OriginatingTransactionId, ProxyMessageType,
                                    ProxyPutResponse, ProxyPutResponseParams)
 from spacepackets.countdown import Countdown
 from spacepackets.seqcount import ProvidesSeqCount
@@ -403,11 +403,15 @@ class SeqProvider(ProvidesSeqCount):
 
 
 class ChkProvider(CheckTimerProvider):
-    def __init__(self, ms: int):
+    """the user's check timer provider: one interval, or one per remote entity (`chkmap=value:ms,...` on the
+    H line — implementation-only sessions: the model has one interval per local entity)"""
+
+    def __init__(self, ms: int, per_remote: dict[int, int] | None = None):
         self.ms = ms
+        self.per_remote = per_remote or {}
 
     def provide_check_timer(self, local_entity_id, remote_entity_id, entity_type) -> Countdown:
-        return Countdown.from_millis(self.ms)
+        return Countdown.from_millis(self.per_remote.get(remote_entity_id.value, self.ms))
 
 
 def tid_s(t) -> str:
@@ -527,7 +531,9 @@ class World:
             )
             cfg = LocalEntityCfg(bf(a["id"]), icfg, faults)
             table = RemoteEntityCfgTable()
-            chk = ChkProvider(int(a.get("chkms", "1000")))
+            chk = ChkProvider(int(a.get("chkms", "1000")),
+                              {int(x.split(":")[0]): int(x.split(":")[1]) for x in a["chkmap"].split(",")}
+                              if "chkmap" in a else None)
             if kind == "src":
                 prov = self.provs[a["seqp"]]
                 h = SourceHandler(cfg, user, table, chk, prov)
@@ -767,6 +773,12 @@ class World:
                                 "-": None}[a.get("mode", "-")],
                     closure_requested={"1": True, "0": False, "-": None}[a.get("closure", "-")],
                     msgs_to_user=msgs,
+                    # fault handler override options (fho=COND:FH,...): carried in the Metadata PDU for the
+                    # RECEIVER; the local fault handler table alone decides what the sender does (C14).
+                    # Implementation-only sessions: the model's Metadata PDU has no such options.
+                    fault_handler_overrides=None if a.get("fho", "-") == "-" else [
+                        FaultHandlerOverrideTlv(COND_NAMES[x.split(":")[0]], FH_NAMES[x.split(":")[1]])
+                        for x in a["fho"].split(",")],
                 )
                 r = h.put_request(req)
                 return f"ok ret={'true' if r else 'false'} " + self.status(name)
